@@ -145,9 +145,12 @@ func (x *Exec) remat(st *State, v ssa.Value) Value {
 		val := Value{K: VRef, T: name, Ty: ins.Type()}
 		st.env[v] = val
 		return val
-	case *ssa.FieldAddr, *ssa.IndexAddr, *ssa.BinOp, *ssa.Convert, *ssa.ChangeType, *ssa.Slice, *ssa.Field, *ssa.Extract, *ssa.MakeInterface, *ssa.ChangeInterface:
+	case *ssa.FieldAddr, *ssa.IndexAddr, *ssa.BinOp, *ssa.Convert, *ssa.ChangeType, *ssa.Slice, *ssa.Field, *ssa.Extract, *ssa.MakeInterface, *ssa.ChangeInterface, *ssa.Lookup, *ssa.Index:
 		if b, ok := ins.(*ssa.BinOp); ok && (b.Op == token.QUO || b.Op == token.REM) {
 			break
+		}
+		if l, ok := ins.(*ssa.Lookup); ok && kindOf(l.X.Type()) != VStr {
+			break // map lookups read the heap
 		}
 		if e, ok := ins.(*ssa.Extract); ok {
 			// tuple source is impure: name the component
